@@ -1,5 +1,6 @@
 import MaltModel.Sem.CoreLemmas
 import MaltModel.Conv.JumpsSem
+import MaltModel.Proofs.JumpsSyntax
 /-
 Helper lemmas shared by the three jump-lowering proofs (C01, jump passes):
 outcome classification of quiet / jump-free blocks, evaluation of the generated guards.
@@ -121,23 +122,6 @@ theorem fatal_ne_ret {o : Out} (h : Out.fatal o) (v : Val) : o ≠ .ret v := by
 
 /-! ### handlers of the fragments -/
 
-theorem quietH_find {hs : List (Nat × Block)} {ex : Exc} {hb : Block}
-    (hq : quietH hs = true) (h : findHandler hs ex = some hb) : quietB hb = true := by
-  cases ex with
-  | user t =>
-    simp only [findHandler] at h
-    induction hs with
-    | nil => simp at h
-    | cons p hs ih =>
-      obtain ⟨t', b⟩ := p
-      simp only [quietH, Bool.and_eq_true] at hq
-      simp only [List.find?] at h
-      split at h
-      · simp at h; subst h; exact hq.1
-      · exact ih hq.2 h
-  | nameError x => simp [findHandler] at h
-  | typeError => simp [findHandler] at h
-
 theorem jumpFreeH_find {hs : List (Nat × Block)} {ex : Exc} {hb : Block}
     (hq : jumpFreeH hs = true) (h : findHandler hs ex = some hb) : jumpFreeB hb = true := by
   cases ex with
@@ -191,45 +175,100 @@ theorem noExtraH_find {hs : List (Nat × Block)} {ex : Exc} {hb : Block}
 
 /-! ### outcome classification -/
 
-/-- A quiet block (no raise/break/continue/return anywhere inside) ends normally or with a fatal exception. -/
-theorem quiet_outcome_all (X : Ext) : ∀ n,
-    (∀ s σ o σ1, quietS s = true → exec X n s σ = some (o, σ1) → o = .normal ∨ Out.fatal o) ∧
-    (∀ b σ o σ1, quietB b = true → execB X n b σ = some (o, σ1) → o = .normal ∨ Out.fatal o) ∧
-    (∀ x ex b items σ o σ1, quietB b = true → execFor X n x ex b items σ = some (o, σ1) →
-        o = .normal ∨ Out.fatal o) := by
+/-- The outcome `o` is among those the flags allow (besides `normal` and fatal exceptions). -/
+def May (brk cont ret rs : Bool) (o : Out) : Prop :=
+  (o = .brk → brk = true) ∧ (o = .cont → cont = true) ∧ (∀ v, o = .ret v → ret = true) ∧
+  (∀ t, o = .exc (.user t) → rs = true)
+
+theorem May.normal (a b c d : Bool) : May a b c d .normal := ⟨by simp, by simp, by simp, by simp⟩
+
+theorem May.fatal {a b c d : Bool} {o : Out} (h : Out.fatal o) : May a b c d o := by
+  refine ⟨fun he => ?_, fun he => ?_, fun v he => ?_, fun t he => ?_⟩ <;> (subst he; simp [Out.fatal] at h)
+
+theorem May.mono {a b c d a' b' c' d' : Bool} {o : Out} (h : May a b c d o)
+    (ha : a = true → a' = true) (hb : b = true → b' = true) (hc : c = true → c' = true)
+    (hd : d = true → d' = true) : May a' b' c' d' o :=
+  ⟨fun he => ha (h.1 he), fun he => hb (h.2.1 he), fun v he => hc (h.2.2.1 v he), fun t he => hd (h.2.2.2 t he)⟩
+
+/-- What a loop does to the outcome of its body: `break`/`continue` are absorbed. -/
+theorem May.loop {a b c d : Bool} {o : Out} (h : May a b c d o) (hb : o ≠ .brk) (hc : o ≠ .cont) :
+    May false false c d o :=
+  ⟨fun he => absurd he hb, fun he => absurd he hc, h.2.2.1, h.2.2.2⟩
+
+def MayS (s : Stmt) (o : Out) : Prop := May (mayBrkS s) (topContS s) (hasRetS s) (hasRaiseS s) o
+def MayB (b : Block) (o : Out) : Prop := May (mayBrkB b) (topContB b) (hasRetB b) (hasRaiseB b) o
+
+theorem mayH_find {hs : List (Nat × Block)} {ex : Exc} {hb : Block} (h : findHandler hs ex = some hb) :
+    (mayBrkB hb = true → mayBrkH hs = true) ∧ (topContB hb = true → topContH hs = true) ∧
+    (hasRetB hb = true → hasRetH hs = true) ∧ (hasRaiseB hb = true → hasRaiseH hs = true) := by
+  cases ex with
+  | user t =>
+    simp only [findHandler] at h
+    induction hs with
+    | nil => simp at h
+    | cons p hs ih =>
+      obtain ⟨t', b⟩ := p
+      simp only [List.find?] at h
+      simp only [mayBrkH, topContH, hasRetH, hasRaiseH, Bool.or_eq_true]
+      split at h
+      · simp at h; subst h
+        exact ⟨Or.inl, Or.inl, Or.inl, Or.inl⟩
+      · obtain ⟨h1, h2, h3, h4⟩ := ih h
+        exact ⟨fun x => Or.inr (h1 x), fun x => Or.inr (h2 x), fun x => Or.inr (h3 x), fun x => Or.inr (h4 x)⟩
+  | nameError x => simp [findHandler] at h
+  | typeError => simp [findHandler] at h
+
+/-- Every outcome is allowed by the syntactic flags of the statement / block. -/
+theorem may_outcome_all (X : Ext) : ∀ n,
+    (∀ s σ o σ1, exec X n s σ = some (o, σ1) → MayS s o) ∧
+    (∀ b σ o σ1, execB X n b σ = some (o, σ1) → MayB b o) ∧
+    (∀ x ex b items σ o σ1, execFor X n x ex b items σ = some (o, σ1) →
+        May false false (hasRetB b) (hasRaiseB b) o) := by
   intro n
   induction n with
   | zero =>
     refine ⟨?_, ?_, ?_⟩
-    · intro s σ o σ1 _ h; simp [exec] at h
-    · intro b σ o σ1 _ h; simp [execB] at h
-    · intro x ex b items σ o σ1 _ h; simp [execFor] at h
+    · intro s σ o σ1 h; simp [exec] at h
+    · intro b σ o σ1 h; simp [execB] at h
+    · intro x ex b items σ o σ1 h; simp [execFor] at h
   | succ n ih =>
     obtain ⟨ihS, ihB, ihF⟩ := ih
     refine ⟨?_, ?_, ?_⟩
-    · intro s σ o σ1 hq h
+    · intro s σ o σ1 h
       cases s with
-      | brk => simp [quietS] at hq
-      | cont => simp [quietS] at hq
-      | ret e => simp [quietS] at hq
-      | raise t => simp [quietS] at hq
-      | pass => simp [exec] at h; exact Or.inl h.1.symm
+      | brk => simp [exec] at h; rw [← h.1]; exact ⟨fun _ => rfl, by simp, by simp, by simp⟩
+      | cont => simp [exec] at h; rw [← h.1]; exact ⟨by simp, fun _ => rfl, by simp, by simp⟩
+      | pass => simp [exec] at h; rw [← h.1]; exact May.normal _ _ _ _
+      | raise t =>
+        simp [exec] at h; rw [← h.1]
+        exact ⟨by simp, by simp, by simp, fun _ _ => by simp [hasRaiseS]⟩
+      | ret e =>
+        cases e with
+        | none =>
+          simp [exec] at h; rw [← h.1]
+          exact ⟨by simp, by simp, fun _ _ => by simp [hasRetS], by simp⟩
+        | some e =>
+          simp only [exec] at h
+          rcases hr : evalE X e σ with ⟨r, τ⟩
+          rw [hr] at h
+          cases r with
+          | ok v => simp at h; rw [← h.1]; exact ⟨by simp, by simp, fun _ _ => by simp [hasRetS], by simp⟩
+          | error ex => simp at h; rw [← h.1]; exact May.fatal (evalE_err_fatal X e σ _ _ hr)
       | assign x e =>
         simp only [exec] at h
         rcases hr : evalE X e σ with ⟨r, τ⟩
         rw [hr] at h
         cases r with
-        | ok v => simp at h; exact Or.inl h.1.symm
-        | error ex => simp at h; rw [← h.1]; exact Or.inr (evalE_err_fatal X e σ _ _ hr)
+        | ok v => simp at h; rw [← h.1]; exact May.normal _ _ _ _
+        | error ex => simp at h; rw [← h.1]; exact May.fatal (evalE_err_fatal X e σ _ _ hr)
       | expr e =>
         simp only [exec] at h
         rcases hr : evalE X e σ with ⟨r, τ⟩
         rw [hr] at h
         cases r with
-        | ok v => simp at h; exact Or.inl h.1.symm
-        | error ex => simp at h; rw [← h.1]; exact Or.inr (evalE_err_fatal X e σ _ _ hr)
+        | ok v => simp at h; rw [← h.1]; exact May.normal _ _ _ _
+        | error ex => simp at h; rw [← h.1]; exact May.fatal (evalE_err_fatal X e σ _ _ hr)
       | ifS c t e =>
-        simp only [quietS, Bool.and_eq_true] at hq
         simp only [exec] at h
         rcases hr : evalE X c σ with ⟨r, τ⟩
         rw [hr] at h
@@ -237,145 +276,176 @@ theorem quiet_outcome_all (X : Ext) : ∀ n,
         | ok v =>
           simp only at h
           split at h
-          · exact ihB _ _ _ _ hq.1 h
-          · exact ihB _ _ _ _ hq.2 h
-        | error ex => simp at h; rw [← h.1]; exact Or.inr (evalE_err_fatal X c σ _ _ hr)
+          · exact (ihB _ _ _ _ h).mono (by simp [mayBrkS]; exact Or.inl) (by simp [topContS]; exact Or.inl)
+              (by simp [hasRetS]; exact Or.inl) (by simp [hasRaiseS]; exact Or.inl)
+          · exact (ihB _ _ _ _ h).mono (by simp [mayBrkS]; exact Or.inr) (by simp [topContS]; exact Or.inr)
+              (by simp [hasRetS]; exact Or.inr) (by simp [hasRaiseS]; exact Or.inr)
+        | error ex => simp at h; rw [← h.1]; exact May.fatal (evalE_err_fatal X c σ _ _ hr)
       | whileS c b =>
-        have hqw := hq
-        simp only [quietS] at hq
-        simp only [exec] at h
+        obtain ⟨hob, hoc⟩ := exec_while_out X h
         rcases hr : evalE X c σ with ⟨r, τ⟩
-        rw [hr] at h
         cases r with
+        | error ex =>
+          rw [exec_while_err hr] at h; simp at h; rw [← h.1]; exact May.fatal (evalE_err_fatal X c σ _ _ hr)
         | ok v =>
-          simp only at h
-          split at h
-          · simp at h; exact Or.inl h.1.symm
-          · cases hb : execB X n b τ with
-            | none => simp [hb] at h
+          cases hv : truthy v with
+          | false => rw [exec_while_false hr hv] at h; simp at h; rw [← h.1]; exact May.normal _ _ _ _
+          | true =>
+            cases hb : execB X n b τ with
+            | none => rw [exec_while_none hr hv hb] at h; simp at h
             | some rb =>
               obtain ⟨ob, τ1⟩ := rb
-              rw [hb] at h
-              have hob := ihB _ _ _ _ hq hb
+              rw [exec_while_step hr hv hb] at h
+              have hmb := ihB _ _ _ _ hb
               cases ob with
-              | normal => exact ihS _ _ _ _ hqw h
-              | cont => exact ihS _ _ _ _ hqw h
-              | brk => simp [Out.fatal] at hob
-              | ret v' => simp [Out.fatal] at hob
-              | exc e' => simp at h; rw [← h.1]; exact hob
-        | error ex => simp at h; rw [← h.1]; exact Or.inr (evalE_err_fatal X c σ _ _ hr)
+              | normal => exact ihS _ _ _ _ h
+              | cont => exact ihS _ _ _ _ h
+              | brk => simp at h; rw [← h.1]; exact May.normal _ _ _ _
+              | ret w =>
+                simp at h; rw [← h.1]
+                exact (hmb.loop (by simp) (by simp)).mono (by simp) (by simp) (by simp [hasRetS]) (by simp [hasRaiseS])
+              | exc e =>
+                simp at h; rw [← h.1]
+                exact (hmb.loop (by simp) (by simp)).mono (by simp) (by simp) (by simp [hasRetS]) (by simp [hasRaiseS])
       | forS x it extra b =>
-        simp only [quietS] at hq
-        simp only [exec] at h
+        rw [exec_for_eq] at h
         rcases hr : evalE X it σ with ⟨r, τ⟩
         rw [hr] at h
         cases r with
+        | error ex => simp at h; rw [← h.1]; exact May.fatal (evalE_err_fatal X it σ _ _ hr)
         | ok v =>
           simp only at h
           cases hit : iterItems v with
-          | error ex => rw [hit] at h; simp at h; rw [← h.1]; exact Or.inr (iterItems_err_fatal hit)
+          | error ex => rw [hit] at h; simp at h; rw [← h.1]; exact May.fatal (iterItems_err_fatal hit)
           | ok items =>
             rw [hit] at h; simp only at h
-            cases extra with
-            | none => exact ihF _ _ _ _ _ _ _ hq h
-            | some t =>
-              simp only at h
-              rcases hr2 : evalE X t τ with ⟨r2, υ⟩
-              rw [hr2] at h
-              cases r2 with
-              | ok tv =>
-                simp only at h
-                split at h
-                · exact ihF _ _ _ _ _ _ _ hq h
-                · simp at h; exact Or.inl h.1.symm
-              | error ex => simp at h; rw [← h.1]; exact Or.inr (evalE_err_fatal X t τ _ _ hr2)
-        | error ex => simp at h; rw [← h.1]; exact Or.inr (evalE_err_fatal X it σ _ _ hr)
+            have : May false false (hasRetB b) (hasRaiseB b) o := by
+              cases extra with
+              | none => exact ihF _ _ _ _ _ _ _ h
+              | some t =>
+                simp only [forNext] at h
+                rcases hr2 : evalE X t τ with ⟨r2, υ⟩
+                rw [hr2] at h
+                cases r2 with
+                | error e => simp at h; rw [← h.1]; exact May.fatal (evalE_err_fatal X t τ _ _ hr2)
+                | ok tv =>
+                  simp only at h
+                  split at h
+                  · exact ihF _ _ _ _ _ _ _ h
+                  · simp at h; rw [← h.1]; exact May.normal _ _ _ _
+            exact this.mono (by simp) (by simp) (by simp [hasRetS]) (by simp [hasRaiseS])
       | tryS body hs fin =>
-        simp only [quietS, Bool.and_eq_true] at hq
-        obtain ⟨⟨hqb, hqh⟩, hqf⟩ := hq
-        rw [exec_try] at h
-        cases hb : execB X n body σ with
-        | none => simp [hb] at h
-        | some rb =>
-          obtain ⟨ob, τ⟩ := rb
-          rw [hb] at h
-          simp only [Option.bind_some] at h
-          have hob := ihB _ _ _ _ hqb hb
-          cases ha : afterH X n hs (ob, τ) with
-          | none => simp [ha] at h
-          | some ra =>
-            obtain ⟨oa, τa⟩ := ra
-            rw [ha] at h
-            simp only [Option.bind_some] at h
-            have hoa : oa = .normal ∨ Out.fatal oa := by
-              cases ob with
-              | exc ex =>
-                rcases hob with hob | hob
-                · simp at hob
-                · simp only [afterH, findHandler_fatal hob] at ha
-                  simp at ha; rw [← ha.1]; exact Or.inr hob
-              | normal => simp [afterH] at ha; exact Or.inl ha.1.symm
-              | brk => simp [Out.fatal] at hob
-              | cont => simp [Out.fatal] at hob
-              | ret v => simp [Out.fatal] at hob
-            obtain ⟨of, σf, hf, hcase⟩ := finish_some h
-            have hof := ihB _ _ _ _ hqf hf
-            rcases hcase with ⟨_, heq⟩ | ⟨_, heq⟩
-            · simp at heq; rw [heq.1]; exact hoa
-            · simp at heq; rw [heq.1]; exact hof
+        obtain ⟨⟨ob, τ⟩, ⟨oa, τa⟩, hb, ha, hfin⟩ := exec_try_inv h
+        have hmb := ihB _ _ _ _ hb
+        have hma : May (mayBrkB body || mayBrkH hs) (topContB body || topContH hs)
+            (hasRetB body || hasRetH hs) (hasRaiseB body || hasRaiseH hs) oa := by
+          have hpass : (oa, τa) = (ob, τ) → May (mayBrkB body || mayBrkH hs) (topContB body || topContH hs)
+              (hasRetB body || hasRetH hs) (hasRaiseB body || hasRaiseH hs) oa := by
+            intro he; simp at he; rw [he.1]
+            exact hmb.mono (by intro h; simp [h]) (by intro h; simp [h]) (by intro h; simp [h]) (by intro h; simp [h])
+          cases ob with
+          | exc ex =>
+            simp only [afterH] at ha
+            cases hf : findHandler hs ex with
+            | none => rw [hf] at ha; simp at ha; exact hpass (by simp [ha])
+            | some hbk =>
+              rw [hf] at ha
+              obtain ⟨h1, h2, h3, h4⟩ := mayH_find hf
+              exact (ihB _ _ _ _ ha).mono (by intro h; simp [h1 h]) (by intro h; simp [h2 h])
+                (by intro h; simp [h3 h]) (by intro h; simp [h4 h])
+          | normal => simp [afterH] at ha; exact hpass (by simp [ha])
+          | brk => simp [afterH] at ha; exact hpass (by simp [ha])
+          | cont => simp [afterH] at ha; exact hpass (by simp [ha])
+          | ret w => simp [afterH] at ha; exact hpass (by simp [ha])
+        obtain ⟨of, σf, hf, hcase⟩ := finish_some hfin
+        have hmf := ihB _ _ _ _ hf
+        rcases hcase with ⟨_, heq⟩ | ⟨_, heq⟩
+        · simp at heq; rw [heq.1]
+          exact hma.mono (by intro h; simp [mayBrkS, h]) (by intro h; simp [topContS, h])
+            (by intro h; simp [hasRetS, h]) (by intro h; simp [hasRaiseS, h])
+        · simp at heq; rw [heq.1]
+          exact hmf.mono (by intro h; simp [mayBrkS, h]) (by intro h; simp [topContS, h])
+            (by intro h; simp [hasRetS, h]) (by intro h; simp [hasRaiseS, h])
       | withS tag body =>
-        simp only [quietS] at hq
         simp only [exec] at h
         cases hb : execB X n body (σ.push (.enter tag)) with
         | none => simp [hb] at h
         | some rb =>
           obtain ⟨ob, τ⟩ := rb
           rw [hb] at h
-          simp at h; rw [← h.1]; exact ihB _ _ _ _ hq hb
-    · intro b σ o σ1 hq h
+          simp at h; rw [← h.1]
+          exact (ihB _ _ _ _ hb).mono (by simp [mayBrkS]) (by simp [topContS]) (by simp [hasRetS]) (by simp [hasRaiseS])
+    · intro b σ o σ1 h
       cases b with
-      | nil => simp [execB] at h; exact Or.inl h.1.symm
+      | nil => simp [execB] at h; rw [← h.1]; exact May.normal _ _ _ _
       | cons s rest =>
-        simp only [quietB, Bool.and_eq_true] at hq
         obtain ⟨os, σs, hs, hcase⟩ := execB_cons_inv h
         rcases hcase with ⟨_, hr⟩ | ⟨_, hr⟩
-        · exact ihB _ _ _ _ hq.2 hr
-        · simp at hr; rw [hr.1]; exact ihS _ _ _ _ hq.1 hs
-    · intro x ex b items σ o σ1 hq h
+        · exact (ihB _ _ _ _ hr).mono (by intro h; simp [mayBrkB, h]) (by intro h; simp [topContB, h])
+            (by intro h; simp [hasRetB, h]) (by intro h; simp [hasRaiseB, h])
+        · simp at hr; rw [hr.1]
+          exact (ihS _ _ _ _ hs).mono (by intro h; simp [mayBrkB, h]) (by intro h; simp [topContB, h])
+            (by intro h; simp [hasRetB, h]) (by intro h; simp [hasRaiseB, h])
+    · intro x ex b items σ o σ1 h
       cases items with
-      | nil => simp [execFor] at h; exact Or.inl h.1.symm
+      | nil => simp [execFor] at h; rw [← h.1]; exact May.normal _ _ _ _
       | cons v items =>
         cases hb : execB X n b (σ.set x v) with
         | none => rw [execFor_cons_none hb] at h; simp at h
         | some rb =>
           obtain ⟨ob, τ⟩ := rb
           rw [execFor_cons hb] at h
-          have hob := ihB _ _ _ _ hq hb
-          have hnext : forNext X n x ex b items τ = some (o, σ1) → o = .normal ∨ Out.fatal o := by
+          have hmb := ihB _ _ _ _ hb
+          have hnext : forNext X n x ex b items τ = some (o, σ1) → May false false (hasRetB b) (hasRaiseB b) o := by
             intro h
             cases ex with
-            | none => exact ihF _ _ _ _ _ _ _ hq h
+            | none => exact ihF _ _ _ _ _ _ _ h
             | some t =>
               simp only [forNext] at h
               rcases hr2 : evalE X t τ with ⟨r2, υ⟩
               rw [hr2] at h
               cases r2 with
+              | error e => simp at h; rw [← h.1]; exact May.fatal (evalE_err_fatal X t τ _ _ hr2)
               | ok tv =>
                 simp only at h
                 split at h
-                · exact ihF _ _ _ _ _ _ _ hq h
-                · simp at h; exact Or.inl h.1.symm
-              | error e => simp at h; rw [← h.1]; exact Or.inr (evalE_err_fatal X t τ _ _ hr2)
+                · exact ihF _ _ _ _ _ _ _ h
+                · simp at h; rw [← h.1]; exact May.normal _ _ _ _
           cases ob with
-          | brk => simp [Out.fatal] at hob
+          | brk => simp at h; rw [← h.1]; exact May.normal _ _ _ _
           | normal => exact hnext h
-          | cont => simp [Out.fatal] at hob
-          | ret v' => simp [Out.fatal] at hob
-          | exc e' => simp at h; rw [← h.1]; exact hob
+          | cont => exact hnext h
+          | ret w => simp at h; rw [← h.1]; exact hmb.loop (by simp) (by simp)
+          | exc e => simp at h; rw [← h.1]; exact hmb.loop (by simp) (by simp)
 
+theorem mayB_outcome (X : Ext) {n : Nat} {b : Block} {σ σ1 : St} {o : Out}
+    (h : execB X n b σ = some (o, σ1)) : MayB b o :=
+  (may_outcome_all X n).2.1 b σ o σ1 h
+
+/-- A block no jump leaves ends normally or with an exception. -/
+theorem escFreeB_outcome (X : Ext) {n : Nat} {b : Block} {σ σ1 : St} {o : Out}
+    (hq : escFreeB b = true) (h : execB X n b σ = some (o, σ1)) : o = .normal ∨ ∃ e, o = .exc e := by
+  have hm := mayB_outcome X h
+  simp only [escFreeB, Bool.and_eq_true, Bool.not_eq_true'] at hq
+  cases o with
+  | normal => exact Or.inl rfl
+  | exc e => exact Or.inr ⟨e, rfl⟩
+  | brk => have := hm.1 rfl; rw [hq.1.1] at this; cases this
+  | cont => have := hm.2.1 rfl; rw [hq.1.2] at this; cases this
+  | ret v => have := hm.2.2.1 v rfl; rw [hq.2] at this; cases this
+
+/-- A quiet block ends normally or with a fatal exception. -/
 theorem quietB_outcome (X : Ext) {n : Nat} {b : Block} {σ σ1 : St} {o : Out}
-    (hq : quietB b = true) (h : execB X n b σ = some (o, σ1)) : o = .normal ∨ Out.fatal o :=
-  (quiet_outcome_all X n).2.1 b σ o σ1 hq h
+    (hq : quietB b = true) (h : execB X n b σ = some (o, σ1)) : o = .normal ∨ Out.fatal o := by
+  have hm := mayB_outcome X h
+  simp only [quietB, Bool.and_eq_true, Bool.not_eq_true'] at hq
+  rcases escFreeB_outcome X hq.1 h with hn | ⟨e, he⟩
+  · exact Or.inl hn
+  · subst he
+    cases e with
+    | user t => have := hm.2.2.2 t rfl; rw [hq.2] at this; cases this
+    | nameError x => exact Or.inr trivial
+    | typeError => exact Or.inr trivial
 
 /-- A jump-free block (no break/continue/return anywhere inside) ends normally or with an exception. -/
 theorem jumpFree_outcome_all (X : Ext) : ∀ n,
